@@ -1,118 +1,412 @@
 """C16 - tasklets and wrappers are transparent views that carry their dependencies.
 
-Proof: Props/C16.v over Model/Deps.v.
-Tie: real jug objects (tasklets of tasklets, task-valued indices, slices of mapped sequences,
-CustomHash/NoHash/identity, containers) built over base tasks with chosen results, some stored and
-some not; observed value() (or exception) and Task.dependencies() of a consumer versus the model's
-resolve / impl_deps evaluated in coqc.
-Search: value() versus the same Python operation applied to the chosen results, and "every result
-the reference evaluation reads belongs to a declared dependency"; store.list() has no tasklet keys."""
+Proof: Props/C16.v over Model/Deps.v (Proofs/DepsFacts.v, Proofs/DepsInvalidateFacts.v).
+Tie: real jug objects (tasklets of tasklets, task- and tasklet-valued indices, iteratetask,
+return_tuple, slices of slices of mapped sequences, negative indices, CustomHash around containers,
+NoHash, identity, containers) built over base tasks with chosen results, some stored and some not;
+the observed outcome of value() (a value / AssertionError of Task.load = missing / any other
+exception = raised) and Task.dependencies() of a consumer versus the model's resolve / impl_deps
+evaluated in coqc.
+Search (independent of Coq): value() versus the same operations applied in plain Python to the chosen
+results; every result the evaluation reads belongs to a declared dependency; the declared
+dependencies are exactly the tasks underneath (read off the generator's syntax); can_run() of the
+consumer is false while any is missing; store.list() never contains a key of a derived object; real
+`jug execute` / `jug invalidate` runs on a dict store: the consumer is not started before everything
+underneath is stored, receives the right value, and loses its result when a task underneath is
+invalidated."""
+import contextlib
+import os
+import signal
+import sys
+
 from . import core
-from . import depsgen
 from . import jugrun
+from . import depsgen
+import jug.jug
+import jug.task
 from jug import Task, value
+from jug.backends.dict_store import dict_store
 
 EVIDENCE = dict(
     level='proof',
-    rule='cases = random argument structures (depth <= 3) over 4 base tasks + a mapped sequence, with a random subset of results stored; '
-         'non-trivial = the argument contains a derived object (tasklet / mapped slice / wrapper) or a container of tasks; distinct = distinct literals',
-    explanation='Coq: resolution reads only declared dependencies, is defined when they are all stored, and commutes with indexing/wrapping; '
-                'tie: value() and dependencies() of the real objects == model',
+    rule='cases = random argument structures (depth <= 3, indices themselves arguments) over 4 base tasks + a mapped sequence with '
+         'per-block stored flags, a random subset of results stored; non-trivial = the argument contains a derived object '
+         '(tasklet / mapped sequence or slice / wrapper) or a container of tasks; distinct = distinct (store, argument) literals; '
+         'plus real `jug execute`/`jug invalidate` scenarios on a dict store',
+    explanation='Coq: resolution reads only declared dependencies, never meets a missing result when they are all stored, is stable under '
+                'store extension, commutes with indexing/wrapping at any nesting, mapped-sequence slices = list slices, the walk declares '
+                'exactly the tasks underneath, a consumer is invalidated with them; '
+                'tie: value() outcome and dependencies() of the real objects == model; direct oracles on the real code',
 )
 
+MODNAME = 'c16jugfile'
+DERIVED_TAGS = ('AGetitem', 'AFun', 'AMapSeq', 'AMapSlice', 'ACustom', 'ANoHash', 'AOpaque')
 
+
+# ---------------------------------------------------------------- observation
 def observe_value(o):
+    """-> ('ok', v) | ('missing',) | ('raised', name).  Task.load asserts can_load(): AssertionError = missing result."""
     try:
         return ('ok', value(o))
-    except BaseException as e:   # AssertionError (missing result), IndexError, KeyError, TypeError, ValueError
-        if isinstance(e, (KeyboardInterrupt, SystemExit)):
-            raise
-        return ('err', type(e).__name__)
-
-
-def reference(w, exp):
-    w.reads = set()
-    try:
-        return ('ok', exp()), set(w.reads)
-    except BaseException as e:
-        if isinstance(e, (KeyboardInterrupt, SystemExit)):
-            raise
-        return ('err', type(e).__name__), set(w.reads)
+    except AssertionError:
+        return ('missing',)
+    except Exception as e:
+        return ('raised', type(e).__name__)
 
 
 def same(a, b):
     try:
-        return a == b and type(a) == type(b)
+        return repr(depsgen.canon(a)) == repr(depsgen.canon(b)) and type(a) == type(b)
     except Exception:
         return False
 
 
+def same_outcome(obs, ref):
+    if obs[0] != ref[0]:
+        return False
+    if obs[0] == 'ok':
+        return same(obs[1], ref[1])
+    return True          # the kind of exception raised by an operation is not part of the property
+
+
+def outcome_lit(obs, w):
+    if obs[0] == 'ok':
+        return '(Ok %s)' % depsgen.enc_val(obs[1], w.tids, w.atoms)
+    return 'Missing' if obs[0] == 'missing' else 'Raised'
+
+
+def hx(h):
+    return h.decode('ascii') if isinstance(h, bytes) else str(h)
+
+
+def check_case(w, spec, how='pos'):
+    """All direct oracles on one (world, spec).  Returns (problems, info): problems = list of
+    (what, details) - empty when the real code behaves; info carries what the Coq case needs."""
+    problems = []
+    o = w.realise(spec)
+    w.unload_all()
+    c = depsgen.consumer_task(o, how)
+    deps = [d.hash() for d in c.dependencies()]
+    can_run = c.can_run()
+    cl_obs = None
+    if hasattr(o, 'can_load') and not isinstance(o, (list, tuple, dict)):
+        try:
+            cl_obs = bool(o.can_load())
+        except Exception as e:
+            cl_obs = 'raised ' + type(e).__name__
+    w.unload_all()
+    obs = observe_value(o)
+    ref, reads, oom = w.reference(spec)
+    occ = w.occ(spec)
+    tid = lambda h: w.tids(h)
+    # 1: transparency of values
+    if not same_outcome(obs, ref):
+        problems.append(('value() of a derived object differs from the operation applied to the underlying values',
+                         {'observed': repr(obs), 'expected': repr(ref)}))
+    # 2: every result the evaluation reads is a declared dependency
+    undeclared = [h for h in reads if h not in deps]
+    if undeclared:
+        problems.append(('a task whose result the argument resolution reads is not among the consumer\'s dependencies',
+                         {'undeclared_tids': sorted(tid(h) for h in undeclared), 'declared_tids': sorted(set(tid(h) for h in deps))}))
+    # 2b: the declared dependencies are exactly the tasks underneath
+    if set(deps) != occ:
+        problems.append(('Task.dependencies() of the consumer differs from the tasks underneath its argument',
+                         {'declared_tids': sorted(set(tid(h) for h in deps)), 'underneath_tids': sorted(tid(h) for h in occ)}))
+    # 2c: the consumer waits: can_run() iff everything underneath is stored
+    exp_run = all(w.is_stored(h) for h in occ)
+    if can_run != exp_run:
+        problems.append(('can_run() of the consumer is %s although %s' % (can_run, 'everything underneath is stored' if exp_run else 'a task underneath has no result'),
+                         {'missing_tids': sorted(tid(h) for h in occ if not w.is_stored(h))}))
+    # 2d: can_load() of the derived object itself
+    cl_exp = w.can_load_expected(spec)
+    if cl_exp is not None and cl_obs is not None and cl_obs != cl_exp:
+        problems.append(('can_load() of a derived object is %s, expected %s' % (cl_obs, cl_exp), {}))
+    # 2e: the range a slice of a mapped sequence carries is Python's
+    if spec[0] == 'mapslice':
+        got = (o.start, o.stop, o.stride)
+        if got != w._range(spec[1], spec[2]):
+            problems.append(('a slice of a mapped sequence carries the wrong range', {'observed': repr(got), 'expected': repr(w._range(spec[1], spec[2]))}))
+    return problems, dict(obj=o, consumer=c, deps=deps, obs=obs, ref=ref, reads=reads, oom=oom, occ=occ)
+
+
+def replay_obj(w, spec, how, what, kind, extra):
+    d = {'kind': kind, 'what': what, 'world': w.describe(), 'spec': repr(spec), 'how': how}
+    d.update(extra)
+    return d
+
+
+# ---------------------------------------------------------------- real jug commands, in-process
+@contextlib.contextmanager
+def process_state():
+    argv, path = list(sys.argv), list(sys.path)
+    mod = sys.modules.get(MODNAME)
+    term = signal.getsignal(signal.SIGTERM)
+    try:
+        yield
+    finally:
+        sys.argv[:] = argv
+        sys.path[:] = path
+        if mod is None:
+            sys.modules.pop(MODNAME, None)
+        else:
+            sys.modules[MODNAME] = mod
+        try:
+            signal.signal(signal.SIGTERM, term)
+        except (ValueError, TypeError):
+            pass
+        from jug.hooks.register import reset_all_hooks
+        reset_all_hooks()
+
+
+def call_main(argv):
+    """jug.jug.main(['jug'] + argv) in-process -> (exit code, stdout, stderr)"""
+    del jug.task.alltasks[:]
+    with process_state():
+        with jugrun.quiet() as (out, err):
+            try:
+                jug.jug.main(['jug'] + list(argv))
+                code = 'no-exit'
+            except SystemExit as e:
+                code = e.code
+            finally:
+                # what the end of the process does: a file-backed dict store saves itself when it is collected
+                st = jug.task.Task.store
+                if st is not None and hasattr(st, 'close'):
+                    st.close()
+                jug.task.Task.store = None
+    return code, out.getvalue(), err.getvalue()
+
+
+def store_keys(path):
+    st = dict_store(path)
+    ks = set(st.list())
+    st.backend = None
+    return ks
+
+
+EXEC_FLAGS = ['--will-cite', '--nr-wait-cycles', '1', '--wait-cycle-time', '0', '--keep-going']
+
+
+def scenario(desc, spec, how, prefill, invalidate_idx):
+    """One real run: prefill the dict store with the results of `prefill` (indices into the task list
+    of the world), `jug execute --target consumer`, full `jug execute`, `jug invalidate --target X`.
+    Returns a list of (what, details)."""
+    problems = []
+    with jugrun.scratch_dir('c16') as d:
+        jf = os.path.join(d, MODNAME + '.py')
+        sp = os.path.join(d, 'store.pkl')
+        jugdir = 'dict_store:' + sp
+        depsgen.write_jugfile(jf, desc, spec, how)
+        # the world as the harness sees it (same hashes as inside the jugfile)
+        w = depsgen.World(None, desc=desc, dump=False)
+        alltasks = w.all_tasks()
+        o = w.realise(spec)
+        c = depsgen.consumer_task(o, how)
+        ch = c.hash()
+        occ = w.occ(spec)
+        for t in alltasks:       # from now on "stored" means: in the scenario's store
+            w._stored[t.hash()] = False
+        st = dict_store(sp)
+        for i in prefill:
+            t = alltasks[i]
+            st.dump(w._results[t.hash()], t.hash())
+            w._stored[t.hash()] = True
+        st.close()
+        ref, reads, oom = w.reference(spec)
+        exp_run = all(w.is_stored(h) for h in occ)
+        # ---- A: only the consumer is offered to the execution loop
+        code, out, err = call_main(['execute', jf, '--jugdir', jugdir, '--target', r'/\.consumer$/'] + EXEC_FLAGS)
+        calls = [k for n, k in depsgen.CALLS if n == 'consumer']
+        keys = store_keys(sp)
+        if not exp_run:
+            if calls or ch in keys or code not in (None, 0):
+                problems.append(('jug execute started the consumer of a derived object before everything underneath was stored',
+                                 {'exit': repr(code), 'consumer_called': bool(calls), 'consumer_stored': ch in keys,
+                                  'missing': sorted(hx(h) for h in occ if not w.is_stored(h)), 'log': err[-600:]}))
+        else:
+            if ref[0] == 'ok':
+                if ch not in keys or len(calls) != 1 or code not in (None, 0):
+                    problems.append(('jug execute did not run a consumer whose underlying tasks were all stored',
+                                     {'exit': repr(code), 'log': err[-600:]}))
+            elif ch in keys or code in (None, 0):
+                problems.append(('a consumer whose argument resolution raises was reported as executed', {'exit': repr(code), 'expected': repr(ref)}))
+        # ---- B: everything
+        for t in alltasks:
+            w._stored[t.hash()] = True
+        ref, reads, oom = w.reference(spec)
+        code, out, err = call_main(['execute', jf, '--jugdir', jugdir] + EXEC_FLAGS + ['--nr-wait-cycles', '2'])
+        keys = store_keys(sp)
+        calls = [k for n, k in depsgen.CALLS if n == 'consumer']
+        legit = set(t.hash() for t in alltasks) | {ch}
+        if not keys <= legit:
+            problems.append(('store contains a key that is not a task (a derived object was stored)', {'keys': sorted(hx(k) for k in keys - legit)}))
+        if not set(t.hash() for t in alltasks) <= keys:
+            problems.append(('jug execute left an underlying task without result', {'exit': repr(code), 'log': err[-600:]}))
+        for k in calls:
+            if k is not None and not occ <= set(k):
+                problems.append(('the consumer function was entered while a task underneath its argument had no result',
+                                 {'missing': sorted(hx(h) for h in occ - set(k))}))
+        if ref[0] == 'ok':
+            if ch not in keys:
+                problems.append(('jug execute did not produce the consumer\'s result', {'exit': repr(code), 'log': err[-600:]}))
+            else:
+                st = dict_store(sp)
+                got = st.load(ch)
+                st.backend = None
+                a = depsgen.canon(ref[1])
+                exp = {'pos': ('consumed', (a,), []), 'kw': ('consumed', (), [('k', a)]),
+                       'nested': ('consumed', (1, [a, {'x': (a,)}]), [])}[how]
+                if repr(got) != repr(exp):
+                    problems.append(('the consumer received a value different from the operation applied to the underlying results',
+                                     {'observed': repr(got), 'expected': repr(exp)}))
+        elif ch in keys:
+            problems.append(('a consumer whose argument resolution raises has a result', {'expected': repr(ref)}))
+        # ---- C: invalidate one task (by function name) and see what goes
+        before = keys
+        if invalidate_idx < len(w.base):
+            target = r'/\.src%d$/' % invalidate_idx
+            hit = {w.base[invalidate_idx][0].hash()}
+        else:
+            target = r'/\._jug_map$/'
+            hit = set(b.hash() for m in w.maps for b in m[3])
+        code, out, err = call_main(['invalidate', jf, '--jugdir', jugdir, '--target', target])
+        after = store_keys(sp)
+        exp_removed = before & (hit | ({ch} if (occ & hit) else set()))
+        if before - after != exp_removed:
+            problems.append(('jug invalidate of a task underneath a derived object did not remove exactly that task and the consumer',
+                             {'target': target, 'removed': sorted(hx(k) for k in before - after), 'expected': sorted(hx(k) for k in exp_removed),
+                              'consumer': hx(ch), 'consumer_depends_on_target': bool(occ & hit)}))
+    return problems
+
+
+def gen_scenario(ck, w, spec):
+    rng = ck.rng
+    ntasks = len(w.all_tasks())
+    occ_idx = [i for i, t in enumerate(w.all_tasks()) if t.hash() in w.occ(spec)]
+    r = rng.random()
+    if r < 0.3:
+        prefill = list(range(ntasks))
+    elif r < 0.65 and occ_idx:
+        drop = rng.choice(occ_idx)                      # everything but one task underneath
+        prefill = [i for i in range(ntasks) if i != drop]
+    else:
+        prefill = [i for i in range(ntasks) if rng.random() < 0.5]
+    choices = list(range(len(w.base))) + ([len(w.base)] if any(m[3] for m in w.maps) else [])
+    under = [i for i in choices if (i < len(w.base) and w.base[i][0].hash() in w.occ(spec)) or (i == len(w.base) and any(b.hash() in w.occ(spec) for m in w.maps for b in m[3]))]
+    inv = rng.choice(under) if under and rng.random() < 0.75 else rng.choice(choices)
+    how = rng.choice(['pos', 'pos', 'kw', 'nested'])
+    return how, prefill, inv
+
+
+# ---------------------------------------------------------------- the check
 def run(ck):
     ck.prove()
-    ck.assumptions = ['task results are plain Python values (lists, tuples, dicts, atoms); NumPy results are out of the model of indexing']
-    nworlds = ck.n(120, 3000)
+    ck.assumptions = ['task results are plain Python values (lists, tuples, dicts, atoms, slices); indexing INTO a str/bytes result, bool used as an '
+                      'index and return_tuple over a dict/str (all legal Python) are outside the model: such cases go through the direct oracles only',
+                      'the kind of exception an operation raises is not compared (any exception other than the missing-result assertion = Raised)']
+    nworlds = ck.n(300, 4000)
     per = 10
+    nscen = ck.n(150, 2500)
     cases, meta = [], []
+    scen_pool = []
     for wi in range(nworlds):
         w = depsgen.World(ck.rng, nbase=4, nmaps=1, stored_prob=ck.rng.choice([1.0, 0.85, 0.6]))
         st = None
         for k in range(per):
-            o, lit, exp = w.gen_arg(3)
-            # unload cached results so that every case reads the store
-            for t, _, _ in w.base:
-                t.unload()
-            for m in w.maps:
-                for b in m[3]:
-                    b.unload()
-            c = Task(depsgen.consumer, o)
-            deps = [d.hash() for d in c.dependencies()]
-            obs = observe_value(o)
-            ref, reads = reference(w, exp)
-            nontriv = any(x in lit for x in ('AGetitem', 'AFun', 'AMap', 'ACustom', 'ANoHash', 'AOpaque', 'AList', 'ATuple', 'ADict'))
-            ck.distinct(lit, nontriv)
-            for tag in ('AGetitem', 'AFun', 'AMapSeq', 'AMapSlice', 'ACustom', 'ANoHash', 'AOpaque'):
+            spec = w.gen_spec(3)
+            how = ck.rng.choice(['pos', 'pos', 'pos', 'kw', 'nested'])
+            try:
+                problems, info = check_case(w, spec, how)
+            except Exception as e:
+                ck.violation(replay_obj(w, spec, how, 'building the derived object or its consumer raised %s' % type(e).__name__, 'impl-violation',
+                                        {'error': repr(e)}))
+                continue
+            lit = w.lit(spec)
+            nontriv = any(x in lit for x in DERIVED_TAGS + ('AList', 'ATuple', 'ADict'))
+            for tag in DERIVED_TAGS:
                 if tag in lit:
                     ck.count('has:' + tag)
-            ck.count('value:' + obs[0])
-            # ---- direct oracle 1: transparency of values
-            if obs[0] != ref[0] or (obs[0] == 'ok' and not same(obs[1], ref[1])):
-                ck.violation({'kind': 'impl-violation', 'what': 'value() of a derived object differs from the operation applied to the underlying values',
-                              'arg': lit, 'observed': repr(obs), 'expected': repr(ref)})
-            # ---- direct oracle 2: every result the evaluation reads is a declared dependency
-            missing = [h for h in reads if h not in deps]
-            if missing:
-                ck.violation({'kind': 'impl-violation', 'what': 'a task whose result the argument resolution reads is not among the consumer\'s dependencies',
-                              'arg': lit, 'undeclared_tids': [w.tids(h) for h in missing], 'declared_tids': sorted(w.tids(h) for h in deps)})
+            ck.count('spec:' + spec[0])
+            ck.count('value:' + info['obs'][0])
+            ck.count('consumer:' + how)
+            for what, details in problems:
+                ck.violation(replay_obj(w, spec, how, what, 'impl-violation', dict(details, arg=lit)))
+            if info['oom']:
+                ck.count('outside-model(str index / bool index / return_tuple of dict)')
+                continue
             try:
-                obs_lit = core.optlit(depsgen.enc_val(obs[1], w.tids, w.atoms)) if obs[0] == 'ok' else 'None'
+                obs_lit = outcome_lit(info['obs'], w)
             except ValueError:
                 ck.count('skipped:unencodable')
                 continue
             if st is None:
                 st = w.st_literal()
-            cases.append('(%s, %s, %s, %s)' % (st, lit, obs_lit, core.listlit(['%d%%positive' % w.tids(h) for h in deps])))
-            meta.append({'arg': lit, 'store': st, 'observed': repr(obs), 'deps': sorted(w.tids(h) for h in deps)})
-        # ---- direct oracle 3: derived objects are never stored themselves
+            ck.distinct((st, lit), nontriv)
+            # the model describes the argument; the consumer may embed it (keyword, nested containers): same walk
+            cases.append('(%s, %s, %s, %s)' % (st, lit, obs_lit, core.listlit(['%d%%positive' % w.tids(h) for h in info['deps']])))
+            meta.append(replay_obj(w, spec, how, '', 'correspondence',
+                                   {'arg': lit, 'store': st, 'observed': repr(info['obs']), 'deps': sorted(set(w.tids(h) for h in info['deps']))}))
+            if nontriv and len(scen_pool) < 4 * nscen and ck.rng.random() < 0.5:
+                scen_pool.append((w.desc, spec))
+        # ---- derived objects are never stored themselves
         keys = set(w.store.list())
-        legit = set(t.hash() for t, _, _ in w.base) | set(b.hash() for m in w.maps for b in m[3])
+        legit = set(t.hash() for t in w.all_tasks())
         if not keys <= legit:
-            ck.violation({'kind': 'impl-violation', 'what': 'store contains a key that is not a task (a tasklet was stored)', 'keys': repr(keys - legit)})
-    ck.sample(meta[len(meta) // 2])
-    ck.sample(meta[len(meta) // 3])
+            ck.violation({'kind': 'impl-violation', 'what': 'store contains a key that is not a task (a derived object was stored)', 'keys': repr(keys - legit)})
+    if meta:
+        ck.sample({k: meta[len(meta) // 2][k] for k in ('arg', 'store', 'observed', 'deps')})
+        ck.sample({k: meta[len(meta) // 3][k] for k in ('arg', 'store', 'observed', 'deps')})
+    # ---- real jug execute / invalidate
+    ck.rng.shuffle(scen_pool)
+    for desc, spec in scen_pool[:nscen]:
+        w = depsgen.World(None, desc=desc, dump=False)
+        how, prefill, inv = gen_scenario(ck, w, spec)
+        ck.count('scenario:' + spec[0])
+        try:
+            problems = scenario(desc, spec, how, prefill, inv)
+        except Exception as e:
+            problems = [('the execute/invalidate scenario crashed: %s' % type(e).__name__, {'error': repr(e)})]
+        for what, details in problems:
+            ck.violation(dict({'kind': 'impl-violation', 'what': what, 'world': repr(desc), 'spec': repr(spec), 'how': how,
+                               'scenario': {'prefill': prefill, 'invalidate': inv}}, **details))
+    ck.count('scenarios(execute+invalidate)', len(scen_pool[:nscen]))
+    jugrun.fresh()
     preamble = '''
-Definition st_of (l : list (positive * val)) (t : tid) : option val :=
-  (fix go (l : list (positive * val)) := match l with [] => None | (k, v) :: r => if Pos.eqb k t then Some v else go r end) l.
-Definition run_case (c : list (positive * val) * arg * option val * list tid) : bool :=
+Definition run_case (c : list (tid * val) * arg * res val * list tid) : bool :=
   match c with (l, a, obs, deps) =>
-    option_eqb val_eqb (resolve (st_of l) a) obs && tids_seteq (impl_deps a) deps
+    res_eqb val_eqb (resolve (st_of l) a) obs && tids_seteq (impl_deps a) deps
   end.'''
     fails = ck.cases('resolve_and_deps', 'From JugV Require Import Model.MapReduce Model.Slice Model.Deps.',
-                     'list (positive * val) * arg * option val * list tid', 'run_case', cases, shard=300, preamble=preamble)
+                     'list (tid * val) * arg * res val * list tid', 'run_case', cases, shard=300, preamble=preamble)
     for i in (fails or []):
-        ck.violation({'kind': 'correspondence', 'what': 'value()/dependencies() of the real objects differ from the model', **meta[i]})
+        ck.violation(dict(meta[i], what='value()/dependencies() of the real objects differ from the model'))
 
 
 def replay(obj):
-    print('replay of C16 cases needs the generating seed: run  VERIF_SEED=%s bin/check C16' % obj.get('seed'))
-    print(obj.get('arg'))
-    return 2
+    """Re-execute a recorded case against the repository under test: all direct oracles (and the
+    execute/invalidate scenario when the replay has one).  Returns 1 when the real code misbehaves."""
+    if 'world' not in obj or 'spec' not in obj:
+        print('replay: nothing to re-execute in this file:', obj.get('no_longer_checks', obj))
+        return 2
+    desc = depsgen.read_spec(obj['world'])
+    spec = depsgen.read_spec(obj['spec'])
+    how = obj.get('how', 'pos')
+    rc = 0
+    if 'scenario' in obj:
+        problems = scenario(desc, spec, how, obj['scenario']['prefill'], obj['scenario']['invalidate'])
+        for what, details in problems:
+            print('VIOLATED:', what, details)
+            rc = 1
+    w = depsgen.World(None, desc=desc)
+    print('argument        :', w.lit(spec))
+    problems, info = check_case(w, spec, how)
+    print('value() observed:', info['obs'])
+    print('value() expected:', info['ref'], '(plain Python over the chosen results)')
+    print('dependencies    :', sorted(set(w.tids(h) for h in info['deps'])), ' tasks underneath:', sorted(w.tids(h) for h in info['occ']))
+    for what, details in problems:
+        print('VIOLATED:', what, details)
+        rc = 1
+    if rc == 0:
+        print('the direct oracles hold on this case; a correspondence replay also needs the model: bin/check C16 with VERIF_SEED=%s' % obj.get('seed'))
+    jugrun.fresh()
+    return rc
